@@ -108,6 +108,13 @@ fn check_seg(root: u8, manner: u8, lar: u8, raw: Option<u16>) -> Result<u64, (St
             let m = a | b;
             let conj = |pos: bool| s.feat_match(*node, a, pos) && s.feat_match(*node, b, pos);
             eq!(format!("seg|feat_match|two-feature mask|{node:?}"), (s.feat_match(*node, m, true), s.feat_match(*node, m, false)), (conj(true), conj(false)));
+            // setting a two-feature mask sets (clears) both features, whatever was set before
+            let mut t = s; t.set_feat(*node, m, true);
+            let mut want = base; want[i] = Some(cur.unwrap_or(0) | m);
+            eq!(format!("seg|set_feat+|two-feature mask|{node:?}"), all_nodes(&t), want);
+            let mut t = s; t.set_feat(*node, m, false);
+            let mut want = base; want[i] = cur.map(|v| v & !m);
+            eq!(format!("seg|set_feat-|two-feature mask|{node:?}"), all_nodes(&t), want);
         }
         for mask in MASKS[i] {
             let mask = *mask;
@@ -137,7 +144,7 @@ impl Property for C18 {
         "Exhaustive: every Place value None ∪ Some(0..=65535) (built through the public DerefMut) × each of the four setters × every in-range value and None \
          (get-after-set, frame on the other three sub-nodes, presence predicates, no residual bits after set(None), empty ⇒ None and idempotence on normal places); \
          and Segment cases: every value 0..=255 of each of root/manner/laryngeal × every 61st place value ∪ None ∪ all single-sub-node places: get/set_node, node_match, \
-         get/set_feat, feat_match for all 26 single-feature masks × both polarities, and feat_match for every two-feature mask of a node (= the conjunction of the single-feature answers). One case = one place value or one segment; non-trivial = the place has ≥1 sub-node \
+         get/set_feat, feat_match for all 26 single-feature masks × both polarities, and feat_match / set_feat for every two-feature mask of a node (match = the conjunction of the single-feature answers; set = both features set or cleared). One case = one place value or one segment; non-trivial = the place has ≥1 sub-node \
          present (place cases) / the segment has a place (segment cases); distinct by construction (hash of the enumerated value). Both tiers enumerate the same complete space.".into()
     }
     fn assumptions(&self) -> Vec<String> { vec!["the documented bit layout in the doc comment of place.rs is the intended one".into(), "release build: debug_assert range checks are off, only in-range values are passed".into()] }
